@@ -27,7 +27,7 @@ def run(chk, w):
     E = w.lock_engine()
     chk.explanation = ("Structural necessary conditions for consecutive per-node numbering: (SPAN) from the call that allocates the number to the call "
                        "that hands the message to the wire buffer / deferred queue one lock must be held without interruption, in every calling context; "
-                       "(INV) every store to the send counter keeps it in [1,255] (wrap 255->1, never 0); (ZERO) 0 is stamped only on the branch where "
+                       "(FIFO) the sequence number is stamped before admission, therefore a message may be admitted directly only when no older message to that node is held, and held messages leave their queue first-in-first-out; (INV) every store to the send counter keeps it in [1,255] (wrap 255->1, never 0); (ZERO) 0 is stamped only on the branch where "
                        "numbering is disabled; (RST) the node table is reset before re-enumeration in the reset routine; (ACC) the counter is accessed under "
                        "the node-table mutex. Consecutiveness of concrete wire transcripts under every schedule is not decided.")
     allocs = seq_allocators(P)
@@ -114,6 +114,30 @@ def run(chk, w):
                                           "admission (%s, line %d) and append to the wire buffer (%s, line %d) are separate critical sections: admitted messages can be appended in a different order" % (a.callee, a.line, h.callee, h.line))
                         else:
                             chk.ok("C05-SPAN", 1)
+
+    # ---- FIFO: numbers are stamped before admission, so wire order = number order only if held messages are never overtaken
+    from . import c03
+    from .. import nodestate as ns
+    c03.fifo_rules(chk, w, ns.Roles(w), "C05-FIFO", fields=(ns.MSGQ,))
+
+    # ---- NODROP / PRIV
+    from . import c01
+    roles01 = c01.send_roles(w)
+    c01.nodrop_rule(chk, w, roles01, "C05-NODROP")
+    chk.rule("C05-PRIV", "the message being numbered is assembled in storage private to the call (not in an object shared between senders)")
+    for name in sorted(constructors):
+        fn = P.functions[name]
+        for h in [i for i in fn.calls() if rules.call_reaches(P, i, wire)]:
+            shared = []
+            for a in h.args:
+                if a.get("k") in ("inst", "global", "cexpr"):
+                    for t in flow.origins(fn, a):
+                        if t[0] == "gaddr" and not P.globals.get(t[1], {}).get("const"):
+                            shared.append(t[1])
+            if shared:
+                chk.violation("C05-PRIV", name, shared[0], h.loc(), "the message handed off at line %d is assembled in the shared object '%s' while no lock spans allocation and hand-off: concurrent senders overwrite each other's numbered message" % (h.line, shared[0]))
+            else:
+                chk.ok("C05-PRIV", 1, {"constructor": name, "handoff": h.loc()})
 
     # ---- INV: stores through the counter pointer
     chk.rule("C05-INV", "every store to a sequence counter is a constant in [1,255] or old+1 on a path that excludes old == 255")
